@@ -899,6 +899,12 @@ func runC02(t *Trace, r *Rng, tier string, _ []string) {
 	}
 	kinds := map[string]int{}
 	nonEmpty, nonTotal := 0, 0
+	// the phrase matcher alone, against its Lean model
+	nPh := 3000
+	if tier == "thorough" {
+		nPh = 40000
+	}
+	c02PhrasePaths(t, r.Fork(), nPh)
 	for ix := 0; ix < nIdx; ix++ {
 		engine := []string{"scorch", "upsidedown", "scorch-disk"}[ix%3]
 		ci := buildC02Index(r, engine)
